@@ -639,6 +639,10 @@ type Outcome struct {
 	Stuck    bool     // watchdog fired without the logical proof of a hang (inconclusive)
 	Dump     []string // goroutine stacks at the time of the verdict
 	Leaked   []string // library goroutines still alive after the call returned
+	// StallReleased: the call waited only for operations held by a "stall" fault although no
+	// injected error had been hit (nothing obliged the library to cancel them); the supervisor
+	// cancelled the caller's context to let the call end. No verdict follows from such a run.
+	StallReleased bool
 }
 
 // RunSupervised runs the call in a goroutine under a logical hang monitor:
@@ -679,7 +683,8 @@ func (c *Case) RunSupervised(ctx context.Context, e *Env, watchdog time.Duration
 		case <-tick.C:
 			ops := e.Mon.Ops()
 			src, dst := e.Mon.Inflight()
-			if ops == lastOps && src == 0 && dst == 0 {
+			stalled := e.Mon.Stalled()
+			if ops == lastOps && src+dst-stalled <= 0 {
 				still++
 			} else {
 				still = 0
@@ -698,6 +703,21 @@ func (c *Case) RunSupervised(ctx context.Context, e *Env, watchdog time.Duration
 					default:
 					}
 					if e.Mon.Ops() == ops && AllParked(stacks2) {
+						if stalled > 0 {
+							errorHit := false
+							for _, f := range e.Mon.HitFaults() {
+								if f.Kind == "error" {
+									errorHit = true
+								}
+							}
+							if !errorHit && e.Mon.Cancel != nil && !out.StallReleased {
+								// nothing failed, so nothing had to interrupt the silent operation
+								out.StallReleased = true
+								e.Mon.Cancel()
+								still = 0
+								continue
+							}
+						}
 						out.Hung, out.Dump = true, stacks2
 						return out
 					}
